@@ -197,7 +197,8 @@ def concrete(cfg, rng):
     d = {'types': T, 'kT': float(rng.choice([1.0, 1.5, 0.8])), 'dr': dr, 'length': length, 'rho': rho,
          'diam': {t: [1.0, 1.0, 1.5][i] for i, t in enumerate(T)}, 'pot': {}, 'clo': {}, 'omega': {},
          'assign': str(rng.choice(['group', 'pair', 'setunset'])), 'diam_idiom': str(rng.choice(['direct', 'sweep'])),
-         'num_style': str(rng.choice(['float', 'np', 'int'])), 'reuse': bool(rng.random() < 0.4)}
+         'num_style': str(rng.choice(['float', 'np', 'int'])), 'reuse': bool(rng.random() < 0.4),
+         'domain_idiom': str(rng.choice(['direct', 'direct', 'setter', 'dk', 'length']))}
     for a, b in systems.pairs(T):
         key = '%s-%s' % (a, b)
         d['pot'][key] = POT[cfg['pot']](a, b)
